@@ -125,7 +125,8 @@ CHECKS = [
         "text": "Requests of every kind (typed and raw, plus unknown and unparsable raw requests) x replies {genuine, every bit flip of bytes 1..8, prefixes, "
         "extensions, a reply of every other service, 7F x same/other/unknown SID x 64 (quick) / all 256 (thorough) NRC bytes, negative replies of "
         "length 1,2,4,5}: 0.4 M pairs quick, 1.07 M thorough, classified ACCEPT / MISMATCH / MALFORMED. Plus direct matches() of every typed response "
-        "and totality + class-correctness of the NRC-to-exception map over UDSErrorCodes.",
+        "and totality + class-correctness of the NRC-to-exception map over UDSErrorCodes. Histories: one request object (RawRequest.pdu setter, typed attribute "
+        "setters) re-used across all ordered pairs of request states per kind and along a chain through all kinds; verdict must equal a fresh object's.",
         "note": "Trusted: vf/ref/iso14229.py echo relation. Points the statement leaves open are admitted as sets (secondary echo differs, undecodable with "
         "differing echo, reserved encodings). UDSClient.request() itself is covered by C04.",
     },
@@ -268,7 +269,8 @@ CHECKS = [
         "text": "In every reachable state (180 quick / 1620 thorough) every SID x 0..8 payload bytes (patterned beyond 2), 4095-byte requests, structured ISO requests "
         "and everything gallia's 40+ request classes serialise (6.2 M / 126 M transitions): handle_request never raises, the session stays one the model offers, "
         "every reply passes helpers.parse_pdu both for RawRequest(req) and for parse_dynamic(req); the whole alphabet as one history through the real "
-        "TCPUDSServerTransport.handle_client (StreamReader) is consumed to EOF with replies identical to direct handle_request.",
+        "TCP/Unix server transport's client callback - callback and StreamReader limit captured from its own run() - is consumed to EOF with replies identical "
+        "to direct handle_request. One deviation per execution: each of the first 24 draws of the per-reply random generators forced to either end of its range.",
         "note": "Default behaviour switches only. No real socket segmentation here (C19 covers framing). parse_pdu verdicts memoised as a pure function.",
     },
     {
